@@ -26,7 +26,8 @@ gvars == <<decl, ranges, plan, done>>
 Used == IF Mode = "valid" THEN UNION {Cover(decl.fields[j]) : j \in 1..Len(decl.fields)} ELSE {}
 CurBits == UNION {r[1]..r[2] : r \in Ran(ranges)}
 
-Init == /\ \E n \in Bases : decl = [id |-> 0, name |-> "T", n |-> n, s |-> StorageOf(n), def |-> <<>>, defform |-> "lit",
+Init == /\ \E n \in Bases : \E df \in {<<>>, << <<>> >>} :          \* no default | default = 0
+             decl = [id |-> 0, name |-> "T", n |-> n, s |-> StorageOf(n), def |-> df, defform |-> "lit",
                                     defsyn |-> "=", debug |-> FALSE, fields |-> <<>>, enums |-> <<>>, nested |-> <<>>]
         /\ ranges = <<>> /\ plan = [nr |-> 0, arr |-> FALSE] /\ done = FALSE
 
